@@ -1281,6 +1281,7 @@ func TestVerifC11BFS(t *testing.T) {
 	defer r.Finish()
 	r.Rule("event histories over {issue status-list / nuts credential (2 issuers), revoke(c), deliver nuts revocation(c), check (serve every page + verify every credential on both nodes), " +
 		"advance clock 16m / 19h / 25h, 5 forged revocations, 6 forged lists at the named URL, 3 failures of the list endpoint (HTTP 500, network error, truncated body) at a refresh}; network revocations reach node V through the real ambassador receiver under 6 environment answers (fine, key / store time-out or cancellation once, key permanently not found) with redelivery until nothing is pending; " +
+		"plus once per run: a validly signed issuer revocation whose date is -1 y ... +1 d (10 offsets) relative to the receiving node's clock, through the ambassador receiver and through RegisterRevocation, must be registered and effective; " +
 		"plus once per run: every near-miss of the issuer's did:nuts and did:web identifier (prefixes, extensions, case, other method) x 2 forged shapes from two start states (fresh; issuer 1's page two slots before roll-over), " +
 		"breadth-first with canonical-state de-duplication below every history prefix of length 2; a state is distinct by its canonical form")
 	r.Assume("DID resolution is a static table; JSON-LD, jwx and SQLite are exercised, not modelled; node V and node I share the virtual clock; " +
@@ -1432,7 +1433,7 @@ func TestVerifC11Sched(t *testing.T) {
 	r := ev.Start(t, "C11")
 	defer r.Finish()
 	r.Rule("all interleavings (no preemption bound, except the four-thread set of the thorough tier: complete up to 3 preemptions) of concurrent StatusList2021.Entry calls, optionally with a Revoke of an earlier entry and a Credential() of the page, " +
-		"scheduling points at SQL transaction begin and at every standalone statement (the single SQLite connection is a virtual lock); start states: no page yet, page in use, page one slot before roll-over")
+		"scheduling points at SQL transaction begin and at every standalone statement (the single SQLite connection is a virtual lock); start states: no page yet, page in use, page one slot before roll-over; round 6: the age of the stored list is part of the start state (fresh / 19 h old = inside the 6 h re-issue margin / 25 h old = expired) with Revoke x Credential and Credential x Credential (thorough: + Entry, three threads) and further scheduling points at key resolution (thorough: and signing); afterwards the stored and the next served list must show every revocation answered with success")
 	r.Assume("inside one SQL transaction no other thread runs (SQLite with one connection); SELECT FOR UPDATE semantics of server databases are not explored")
 
 	// Round 6: the state of the stored list is a dimension of the start state. "mid" = list fresh (Credential() returns
